@@ -8,6 +8,7 @@ import (
 
 	"github.com/tencent/goom/erro"
 	"github.com/tencent/goom/internal/hack"
+	"github.com/tencent/goom/internal/simhook"
 )
 
 var (
@@ -41,7 +42,9 @@ func initAlignmentFunc() {
 
 // FindFuncByName read the symbol table at runtime
 func FindFuncByName(name string) (uintptr, error) {
+	simhook.Acquire(simhook.LockSymInit)
 	initAlignment.Do(initAlignmentFunc)
+	simhook.Release(simhook.LockSymInit)
 	fn, err := getFunctionSymbolByName(name)
 	if err == nil {
 		return uintptr(fn.Entry) + funcAlignment, nil
@@ -54,7 +57,9 @@ func FindFuncByName(name string) (uintptr, error) {
 
 // FindVarByName read the var address at runtime
 func FindVarByName(name string) (uintptr, error) {
+	simhook.Acquire(simhook.LockSymInit)
 	initAlignment.Do(initAlignmentFunc)
+	simhook.Release(simhook.LockSymInit)
 	fn, err := getVarSymbolByName(name)
 	if err == nil {
 		return uintptr(fn.Value) + varAlignment, nil
